@@ -74,7 +74,13 @@ func (g *gstate) observe(rng *rand.Rand, pFull, pImg float64) {
 	g.do("imeta")
 	g.do("recs")
 	if ch := g.chain(); len(ch) > 2 && rng.Intn(4) == 0 {
-		g.do("cands " + ch[rng.Intn(len(ch))].name)
+		if rng.Intn(7) == 0 {
+			// a checkpoint that is not (or no longer) a member of the chain: nothing may be selected
+			g.do("cands nosuch")
+			g.feat["cands-checkpoint-not-in-chain"] = true
+		} else {
+			g.do("cands " + ch[rng.Intn(len(ch))].name)
+		}
 		g.feat["cands"] = true
 	}
 	if rng.Float64() < pFull {
@@ -520,7 +526,17 @@ func generate(rng *rand.Rand, steps int, profile string) ([]string, []string, ma
 			for rng.Intn(3) == 0 {
 				g.write(rng)
 			}
-			g.do("rbpromote")
+			if profile == "rebuild" && rng.Intn(3) == 0 {
+				// a foreground write reaches the promoted replica before it has cleared its rebuilding flag
+				// (VerifyRebuildReplica, then the write, then SetRebuilding(false)): it is a write to an RW replica
+				g.tagN++
+				u := g.nb() * 8
+				off := rng.Intn(u)
+				g.do(fmt.Sprintf("rbpromotew %d %d %d", off, 1+rng.Intn(min(24, u-off)), g.tagN))
+				g.feat["write-between-promotion-and-flag"] = true
+			} else {
+				g.do("rbpromote")
+			}
 			if rng.Intn(2) == 0 {
 				g.do("full")
 			}
@@ -643,7 +659,18 @@ func generate(rng *rand.Rand, steps int, profile string) ([]string, []string, ma
 			g.do("meta")
 			continue
 		case "resize":
-			g.do(fmt.Sprintf("resize %d", g.nb()+rng.Intn(4)))
+			switch x := rng.Intn(7); {
+			case x == 0 && g.nb() > 1:
+				// a shrink by whole blocks: refused, nothing changes
+				g.do(fmt.Sprintf("resize %d", g.nb()-1-rng.Intn(min(3, g.nb()-1))))
+				g.feat["shrink-refused"] = true
+			case x == 1:
+				// a shrink that stays inside the last block (the size stays a multiple of the sector size)
+				g.do(fmt.Sprintf("shrinkb %d", 512*(1+rng.Intn(7))))
+				g.feat["shrink-inside-last-block"] = true
+			default:
+				g.do(fmt.Sprintf("resize %d", g.nb()+rng.Intn(4)))
+			}
 			g.feat["resize"] = true
 		case "punch":
 			on := rng.Intn(4) != 0
